@@ -6,6 +6,7 @@ import (
 	"encoding/json"
 	"os"
 	"regexp"
+	"syscall"
 
 	"github.com/mimecast/dtail/internal/discovery"
 )
@@ -16,6 +17,8 @@ type discCase struct {
 	Server  string   `json:"server"`  // hex: --servers argument (comma) or file content (file) or "/regex/" (module)
 	Entries []string `json:"entries"` // hex entries for module source
 	Regex   string   `json:"regex"`   // hex: regex text without slashes ("" = none), module kind only
+	Fifo    bool     `json:"fifo"`    // file kind: the server file is a named pipe (what --servers <(cmd) passes)
+	Symlink bool     `json:"symlink"` // file kind: the server file is reached through a symbolic link
 }
 
 func init() {
@@ -30,6 +33,31 @@ func init() {
 		case "comma":
 			d = discovery.New("", string(unhx(c.Server)), discovery.Shuffle)
 		case "file":
+			if c.Fifo || c.Symlink {
+				dir, err := os.MkdirTemp("", "dverif-servers-*")
+				if err != nil {
+					return nil, err
+				}
+				defer os.RemoveAll(dir)
+				path := dir + "/servers"
+				if c.Fifo {
+					if err := syscall.Mkfifo(path, 0o600); err != nil {
+						return nil, err
+					}
+					go func() {
+						w, err := os.OpenFile(path, os.O_WRONLY, 0)
+						if err == nil {
+							w.Write(unhx(c.Server))
+							w.Close()
+						}
+					}()
+				} else {
+					os.WriteFile(dir+"/real", unhx(c.Server), 0o600)
+					os.Symlink(dir+"/real", path)
+				}
+				d = discovery.New("", path, discovery.Shuffle)
+				break
+			}
 			f, err := os.CreateTemp("", "dverif-servers-*")
 			if err != nil {
 				return nil, err
